@@ -229,3 +229,60 @@ End Cluster.
 Definition run (under : key -> bool) (h : list ev) : state := run_from under true init h.
 (* the tree before the D5 repair (kept for the regression example) *)
 Definition run_prefix (under : key -> bool) (h : list ev) : state := run_from under false init h.
+
+(* ------------------------------------------------------------------ rpc/resolver/internal/discovbuilder.go *)
+(* Build: sub := discov.NewSubscriber(hosts, key) (:17, Registry.Monitor inside: its calls are `init`);
+   sub.AddListener(update) (:31); update() (:32), where update pushes subset(sub.Values(), subsetSize) to
+   cc.UpdateState. The subscriber is not exclusive. (subset only permutes while there are at most subsetSize
+   = 32 values; the model records the whole list.) *)
+Inductive bstep := BSubscribe | BListen | BPush.
+Definition build_order : list bstep := [BSubscribe; BListen; BPush].
+
+Record rstate := mkR {
+  r_ops : option (list cop);            (* what sub's container went through; None = no subscriber yet *)
+  r_todo : list bstep;                  (* what Build still has to do *)
+  r_reg : bool;                         (* update is registered as change listener *)
+  r_pushes : list (result (list val))   (* cc.UpdateState calls *)
+}.
+
+(* update() *)
+Definition r_push (r : rstate) : rstate :=
+  match r_ops r with
+  | Some ops => mkR (Some (ops ++ [OGet])) (r_todo r) (r_reg r)
+                    (r_pushes r ++ [fst (get_values (crun false ops))])
+  | None => mkR None (r_todo r) (r_reg r) (r_pushes r ++ [Panic])
+  end.
+
+(* a schedule item: None = Build executes its next step; Some c = the cluster delivers c to the container
+   (concurrently with Build: watch goroutines) *)
+Definition rstep (init : list call) (r : rstate) (i : option call) : rstate :=
+  match i with
+  | None =>
+      match r_todo r with
+      | [] => r
+      | BSubscribe :: t => mkR (Some (map OCall init)) t (r_reg r) (r_pushes r)
+      | BListen :: t => mkR (option_map (fun ops => ops ++ [OListen]) (r_ops r)) t true (r_pushes r)
+      | BPush :: t => r_push (mkR (r_ops r) t (r_reg r) (r_pushes r))
+      end
+  | Some c =>
+      match r_ops r with
+      | None => r                        (* nothing is subscribed: nothing can be delivered *)
+      | Some ops =>
+          let r' := mkR (Some (ops ++ [OCall c])) (r_todo r) (r_reg r) (r_pushes r) in
+          if r_reg r then r_push r' else r'    (* notifyChange runs the registered listener *)
+      end
+  end.
+
+Definition rrun (order : list bstep) (init : list call) (sched : list (option call)) : rstate :=
+  fold_left (rstep init) sched (mkR None order false []).
+
+Definition somes (sched : list (option call)) : list call :=
+  flat_map (fun i => match i with Some c => [c] | None => [] end) sched.
+
+(* the calls delivered after NewSubscriber returned *)
+Fixpoint arrived (sched : list (option call)) : list call :=
+  match sched with
+  | [] => []
+  | None :: r => somes r
+  | Some _ :: r => arrived r
+  end.
